@@ -612,7 +612,7 @@ class C13(Config):
               "Local Open Scope Z_scope.")
     bin = "c13"
     release_too = False
-    n_tags = 80
+    n_tags = 90
     shard_size = 60
     classes = {1: "C13-roundtrip-anchor"}
     rule = ("PCZTs built by zcash_primitives Builder::build_for_pczt / DeferredPcztBuilder + Creator for generated "
@@ -621,7 +621,9 @@ class C13(Config):
             "role case with pczt_txid before/after), Creator templates (with and without fallback lock time) and flag variants "
             "for vector extension, value_sum-tweaked copies, transparent prefix families; every permutation and several "
             "groupings through Combiner; serialise/parse of the parties and of compacted copies; Pczt::into_effects against "
-            "the model's transaction; serde trees + bytes of v1::Pczt / v2::Pczt against the postcard model; mutated encodings")
+            "the model's transaction; role steps (Redactor compaction, Updater, Signer, IO finaliser) on inconsistent-but-parseable "
+            "copies whose advertised Orchard/Ironwood output value / recipient diversifier / rseed was edited in the v2 bytes, "
+            "each also compared after Pczt::resolve_fields; serde trees + bytes of v1::Pczt / v2::Pczt against the postcard model; mutated encodings")
     trusted_base = [
         "Coq 8.16.1 kernel, vm_compute (no native_compute)",
         "axioms: none",
